@@ -294,7 +294,7 @@ pub fn main_entry() {
     // never as a hang
     {
         let id = id.clone();
-        let limit: u64 = std::env::var("VERIF_CASE_TIMEOUT").ok().and_then(|s| s.parse().ok()).unwrap_or(1500);
+        let limit: u64 = std::env::var("VERIF_CASE_TIMEOUT").ok().and_then(|s| s.parse().ok()).unwrap_or(if tier == Tier::Quick { 420 } else { 1500 });
         std::thread::spawn(move || loop {
             std::thread::sleep(std::time::Duration::from_secs(2));
             let stuck = runner::IN_FLIGHT.lock().ok().and_then(|g| g.iter().find(|e| e.3.elapsed().as_secs() > limit).map(|e| (e.1.clone(), e.2.clone())));
